@@ -188,24 +188,29 @@ static void msg_value(int mk, mpz_ptr m, const Grp &G, bool dss) {
 		default: if (dss) { gen_bits(m, mpz_sizeinbase(G.q, 2)); mpz_setbit(m, mpz_sizeinbase(G.q, 2) - 1); } else gen_bits(m, 200); break; }
 }
 
-static bool schnorr_run_once(std::vector<std::pair<std::string, std::string> > &pending, const Grp &G, size_t n, size_t t, const std::vector<bool> &faulty, int mk, uint64_t seed) {
+static bool schnorr_run_once(std::vector<std::pair<std::string, std::string> > &pending, const Grp &G, size_t n, size_t t, const std::vector<bool> &faulty_in, int mk, uint64_t seed, const std::map<size_t, Deviation> &devs) {
 	std::vector<std::pair<std::string, std::string> > fails; std::vector<std::string> recs;
 	auto propfail = [&](const std::string &k, const std::string &w) { fails.push_back(std::make_pair(k, w)); };
 	mpz_t m; mpz_init(m); msg_value(mk, m, G, false);
-	bool anyf = std::find(faulty.begin(), faulty.end(), true) != faulty.end();
+	// a scripted deviator (wrong private share to a subset during the key DKG or the nonce DKG) runs the honest code over a
+	// tampered unicast channel; it is not counted among the honest signers
+	std::vector<bool> faulty(faulty_in), lib_faulty(faulty_in); for (auto &d : devs) faulty[d.first] = true;
+	bool anyf = std::find(lib_faulty.begin(), lib_faulty.end(), true) != lib_faulty.end();
 	ForkResult FR = fork_parties(n, t, seed, anyf ? aiounicast::aio_timeout_short : aiounicast::aio_timeout_long, anyf ? 400 : 600, [&](size_t i, aiounicast *aiou, CachinKursawePetzoldShoupRBC *rbc, std::ostream &res) {
 		GennaroJareckiKrawczykRabinNTS nts(n, t, i, G.p, G.q, G.g, G.h, mpz_sizeinbase(G.p, 2), mpz_sizeinbase(G.q, 2), false, false);
 		std::ostringstream e1, e2; mpz_t c, s; mpz_init(c); mpz_init(s);
 		bool g = false, ok = false; std::string exc;
-		try { g = nts.Generate(aiou, rbc, e1, faulty[i]); if (g || faulty[i]) ok = nts.Sign(m, c, s, aiou, rbc, e2, faulty[i]); } catch (std::exception &e) { exc = e.what(); }
+		try { g = nts.Generate(aiou, rbc, e1, lib_faulty[i]); if (g || lib_faulty[i]) ok = nts.Sign(m, c, s, aiou, rbc, e2, lib_faulty[i]); } catch (std::exception &e) { exc = e.what(); }
 		bool v = false; try { v = ok && nts.Verify(m, c, s); } catch (...) {}
 		res << "gen=" << g << "\n" << "ret=" << ok << "\n" << "exc=" << exc << "\n" << "c=" << hx(c) << "\n" << "s=" << hx(s) << "\n" << "y=" << hx(nts.y) << "\n" << "verify=" << v << "\n";
 		res << "z=" << hx(nts.z_i) << "\n";
 		res << "qual="; for (size_t k = 0; k < nts.QUAL.size(); k++) res << (k ? "," : "") << nts.QUAL[k]; res << "\n";
 		res << "u62=" << last_logged(e2.str(), ": u_i = ") << "\n";
 		res << "complaints=" << last_logged(e2.str(), "there are reconstruction complaints against ") << "\n";
-	});
+		if (getenv("VERIF_DEBUG")) { std::string l = e1.str() + "|SIGN|" + e2.str(); std::replace(l.begin(), l.end(), '\n', '~'); res << "log=" << l << "\n"; }
+	}, devs.empty() ? 0 : &devs, G.q);
 	std::string fs; for (size_t i = 0; i < n; i++) fs += faulty[i] ? '1' : '0';
+	for (auto &d : devs) fs += " deviation of P" + std::to_string(d.first) + ": " + d.second.str() + " pair=" + std::to_string(d.second.pair_base);
 	std::string ctx = "n=" + std::to_string(n) + " t=" + std::to_string(t) + " faulty=" + fs + " seed=" + std::to_string(seed) + " m=" + hx(m) + " p=" + hx(G.p) + " q=" + hx(G.q) + " g=" + hx(G.g) + " h=" + hx(G.h);
 	auto finish = [&]() {
 		if (fails.empty()) { for (auto &r : recs) fputs(r.c_str(), stdout); return true; }
@@ -213,6 +218,7 @@ static bool schnorr_run_once(std::vector<std::pair<std::string, std::string> > &
 		for (auto &f : fails) verif::propfail(f.first, f.second);
 		return true; };
 	fprintf(stderr, "c16: schnorr %s wall=%.1fs\n", ctx.substr(0, 48).c_str(), FR.wall);
+	if (getenv("VERIF_DEBUG")) { for (size_t i = 0; i < n; i++) fprintf(stderr, "LOG P%zu: %s\n", i, res_get(FR.text[i], "log").c_str()); fprintf(stderr, "ERRLOG: %s\n", FR.errlog.substr(0, 4000).c_str()); }
 	if (FR.timed_out) { propfail("schnorr-timeout", "threshold Schnorr run did not finish within the wall-clock limit: " + ctx); mpz_clear(m); return finish(); }
 	std::string c0, s0, y0, q0; bool first = true;
 	for (size_t i = 0; i < n; i++) if (!faulty[i]) {
@@ -337,15 +343,16 @@ template<class F> static void attempts(const char *what, size_t n, F once) {
 	}
 	fprintf(stderr, "c16: %s n=%zu: no conclusive run in 3 attempts\n", what, n);
 }
-static void schnorr_run(const Grp &G, size_t n, size_t t, const std::vector<bool> &faulty, int mk, uint64_t seed) {
+static void schnorr_run(const Grp &G, size_t n, size_t t, const std::vector<bool> &faulty, int mk, uint64_t seed, const std::map<size_t, Deviation> &devs = std::map<size_t, Deviation>()) {
 	n_sign++;
-	attempts("schnorr", n, [&](int attempt, std::vector<std::pair<std::string, std::string> > &pend) { return schnorr_run_once(pend, G, n, t, faulty, mk, seed + 7777 * attempt); });
+	attempts("schnorr", n, [&](int attempt, std::vector<std::pair<std::string, std::string> > &pend) { return schnorr_run_once(pend, G, n, t, faulty, mk, seed + 7777 * attempt, devs); });
 }
 static void dss_run(const Grp &G, size_t n, size_t t, const std::vector<bool> &faulty, int mk, bool refresh, uint64_t seed) {
 	n_sign++;
 	attempts("dss", n, [&](int attempt, std::vector<std::pair<std::string, std::string> > &pend) { return dss_run_once(pend, G, n, t, faulty, mk, refresh, seed + 7777 * attempt); });
 }
-struct Cfg { int kind; size_t n, t; std::vector<size_t> bad; int mk; bool refresh; };
+// dev >= 0 (Schnorr only): party dev sends a wrong private share to `victims` in the pair_base/2-th sharing (0 = key DKG, 1 = nonce DKG of Sign)
+struct Cfg { int kind; size_t n, t; std::vector<size_t> bad; int mk; bool refresh; long dev = -1; std::vector<size_t> victims; size_t pair_base = 0; };
 
 int main(int argc, char **argv) {
 	Args A(argc, argv);
@@ -377,12 +384,19 @@ int main(int argc, char **argv) {
 				cfgs.push_back({1, n, t, {}, mk++, n == 3}); }
 			cfgs.push_back({1, 4, 1, pick(4, 1), mk++, false});
 			cfgs.push_back({1, 7, 3, {}, mk++, false});
+			// a signer deviating towards a subset only (wrong private share, complaint answered correctly) in the nonce DKG / the key DKG.
+			// Observation (docs/C16.md): the victim of such a resolved complaint loses synchronisation in GennaroJareckiKrawczykRabinDKG
+			// (stale cached g^s_ij), so these runs end "inconclusive" (an honest signer fails after time-outs); two configurations only.
+			{ size_t d = gen().below(4); size_t v; do v = gen().below(4); while (v == d); cfgs.push_back({0, 4, 1, {}, mk++, false, (long)d, {v}, 2}); }
+			{ size_t d = gen().below(5); size_t v; do v = gen().below(5); while (v == d); cfgs.push_back({0, 5, 2, {}, mk++, false, (long)d, {v}, 0}); }
 		}
 		for (size_t ci = 0; ci < cfgs.size(); ci++) { Cfg &c = cfgs[ci];
 			std::vector<bool> f(c.n, false); for (size_t b : c.bad) f[b] = true;
 			uint64_t sd = gen().next() % 1000000;
 			if (ci % parts != part) continue;
-			if (c.kind == 0) schnorr_run(G, c.n, c.t, f, c.mk, sd); else dss_run(G, c.n, c.t, f, c.mk, c.refresh, sd); }
+			std::map<size_t, Deviation> devs;
+			if (c.dev >= 0) { Deviation d; for (size_t v : c.victims) d.wrong.insert(v); d.pair_base = c.pair_base; devs[(size_t)c.dev] = d; }
+			if (c.kind == 0) schnorr_run(G, c.n, c.t, f, c.mk, sd, devs); else dss_run(G, c.n, c.t, f, c.mk, c.refresh, sd); }
 	}
 	fprintf(stderr, "c16: %lu verifier calls, %lu signing runs\n", n_ver, n_sign);
 	return 0;
